@@ -457,6 +457,35 @@ def rule_temporaries(ctx):
     return rr
 
 
+def rule_r9(ctx):
+    """Unpacking checks the number of values (reference 7.2): too many or too few raise ValueError.
+    The lowering reads the elements of the tuple() snapshot BY INDEX; unless it also compares the
+    length of the snapshot with the pattern, extra values are silently ignored and missing ones
+    raise IndexError instead of ValueError."""
+    rr = RuleResult("C13-R9", "destructuring checks the number of values (ValueError for too many / too few)")
+    rr.floor = 1
+    entry = ctx.tmpl.pending_by_kind("Assign")
+    reported = False
+    for pr in entry.ok_paths():
+        snaps = [t for t in iter_tnodes(pr.result) if t.kind == "NamedExpr" and getattr(t, "func", "") == "assign_tuple_list"]
+        if not snaps:
+            continue
+        rr.instances += 1
+        names = [t.fields.get("id").value for t in iter_tnodes(pr.result) if t.kind == "Name" and isinstance(t.fields.get("id"), Cst)]
+        kws = [k.fields.get("arg").value for t in iter_tnodes(pr.result) if t.kind == "Call" and isinstance(t.fields.get("keywords"), PList) for k in t.fields["keywords"].items if isinstance(k, TNode) and isinstance(k.fields.get("arg"), Cst)]
+        checked = "len" in names or "strict" in kws or "ValueError" in names
+        if checked:
+            rr.ok("Assign|length-check")
+        elif not reported:
+            reported = True
+            rr.fail(
+                "C13-R9|Assign|no-length-check",
+                "PendingAssign.assign_tuple_list: the elements of a pattern are read from the snapshot by index and the length of the snapshot is never compared with the pattern: `a, b = [1, 2, 3]` silently binds 1 and 2 (Python: ValueError: too many values to unpack), `r, *s = []` raises IndexError instead of ValueError",
+                what="Assign|length-check",
+            )
+    return rr
+
+
 def rule_c07(ctx):
     """The value of an assignment is evaluated once, before the targets; target sub-expressions once,
     in order (instances of C07-R1/R2 for Assign/AnnAssign/AugAssign)."""
@@ -475,4 +504,4 @@ def rule_c07(ctx):
     return rr
 
 
-RULES = [("C07-R1", rule_c07), ("C13-R1", rule_r1), ("C13-R2", rule_r2), ("C13-R3", rule_r3), ("C13-R4", rule_r4), ("C13-R5", rule_r5), ("C13-R6", rule_r6), ("C13-R7", rule_r7), ("C13-R8", rule_r8), ("C09-R1", rule_temporaries)]
+RULES = [("C07-R1", rule_c07), ("C13-R1", rule_r1), ("C13-R2", rule_r2), ("C13-R3", rule_r3), ("C13-R4", rule_r4), ("C13-R5", rule_r5), ("C13-R6", rule_r6), ("C13-R7", rule_r7), ("C13-R8", rule_r8), ("C13-R9", rule_r9), ("C09-R1", rule_temporaries)]
